@@ -226,7 +226,11 @@ fn check_parse(s: &str, obs: &mut Obs) -> CheckResult {
     ("IotaDID::try_from_core", attempt(|| CoreDID::parse(s).and_then(IotaDID::try_from_core))),
     (
       "IotaDID::try_from(BaseDIDUrl)",
-      attempt(|| BaseDIDUrl::parse(s).map_err(|_| ()).and_then(|b| IotaDID::try_from(b).map_err(|_| ()))),
+      // the `BaseDIDUrl` comes from the dependency's own parser, called by the harness: its panic is not a route result
+      match catch(|| BaseDIDUrl::parse(s)) {
+        Err(_) | Ok(Err(_)) => Attempt::Rejected,
+        Ok(Ok(b)) => attempt(|| IotaDID::try_from(b).map_err(|_| ())),
+      },
     ),
     ("IotaDID::from_json", attempt(|| IotaDID::from_json(&json))),
   ];
